@@ -74,6 +74,7 @@ theorem step_nonPermitting_noexp (s : Sys) (op : SysOp) (hop : op.NonPermitting)
   | drain j k => exact absurd hop (by simp [SysOp.NonPermitting])
   | select j mb => exact absurd hop (by simp [SysOp.NonPermitting])
   | unselect j => exact absurd hop (by simp [SysOp.NonPermitting])
+  | close j => exact absurd hop (by simp [SysOp.NonPermitting])
   | flush j p =>
     have hp : p = false := hop
     subst hp
